@@ -1698,3 +1698,109 @@ func makeClosureOf(parent, anon *ssa.Function) *ssa.MakeClosure {
 	})
 	return out
 }
+
+// ruleFlagByteRMW (C10/C09/C01): rewriting the flag byte of an existing credit keeps the other bits.
+func ruleFlagByteRMW(c *report.Ctx) {
+	p := c.P
+	c.Rule("flag-byte-preserved", "spendCredit / unspendRawCredit change the spent bit of an existing credit value by read-modify-write of the flag byte (old | bit, old &^ bit): the change / staking / binding class bits written at creation survive a spend and its rollback", 2)
+	for _, name := range []string{"spendCredit", "unspendRawCredit"} {
+		f := fn(c, pkgTxmgr, "", name)
+		if f == nil {
+			continue
+		}
+		n := 0
+		an.Instrs(f, func(in ssa.Instruction) {
+			st, ok := in.(*ssa.Store)
+			if !ok {
+				return
+			}
+			ia, ok := st.Addr.(*ssa.IndexAddr)
+			if !ok || !isByteSlice(ia.X.Type()) {
+				return
+			}
+			if k, isK := constInt(ia.Index); !isK || k != 8 {
+				return
+			}
+			n++
+			key := siteKey(f, "flag-byte-store", n)
+			good := false
+			if b, isB := st.Val.(*ssa.BinOp); isB && (b.Op == token.OR || b.Op == token.AND_NOT) {
+				if _, isK := constInt(b.Y); isK {
+					if ld, isLd := b.X.(*ssa.UnOp); isLd && ld.Op == token.MUL {
+						if ia2, isIA := ld.X.(*ssa.IndexAddr); isIA && ia2.X == ia.X {
+							if k2, isK2 := constInt(ia2.Index); isK2 && k2 == 8 {
+								good = true
+							}
+						}
+					}
+				}
+			}
+			if good {
+				c.OK(key, "old "+st.Val.(*ssa.BinOp).Op.String()+" constant", posOf(c, in))
+			} else {
+				c.Fail(key, name+" stores "+p.Desc(st.Val)+" into the flag byte of an existing credit instead of setting/clearing one bit of the old byte: the staking/binding (or change) class written at creation is lost when the coin is spent, so after the spend is rolled back the deposit is an ordinary spendable coin and its history entry is not restored", posOf(c, in))
+			}
+		})
+		if n == 0 {
+			c.Fail(sk(f)+":flag-byte-store", "anchor lost: "+name+" no longer rewrites the flag byte", p.Pos(f.Pos()))
+		}
+	}
+}
+
+// ruleMaturityPerTemplate (C16/C10): ParsePkScript sets a maturity only where the consensus template has one.
+func ruleMaturityPerTemplate(c *report.Ctx) {
+	p := c.P
+	c.Rule("maturity-per-template", "ParsePkScript assigns maturity = frozen period + 1 under the staking class only, and the binding locked period under the binding class with a new-style (non 20-byte) target only; standard and legacy binding outputs keep maturity 0, as the consensus templates have no lock for them", 2)
+	f := fn(c, pkgUtils, "", "ParsePkScript")
+	info := p.Type(pkgUtils, "pkScriptInfo")
+	if f == nil || info == nil {
+		c.Lost("utils.ParsePkScript / pkScriptInfo")
+		return
+	}
+	stakingTy := p.Obj(pkgTxscript, "StakingScriptHashTy")
+	bindingTy := p.Obj(pkgTxscript, "BindingScriptHashTy")
+	if stakingTy == nil || bindingTy == nil {
+		c.Lost("txscript.*ScriptHashTy")
+		return
+	}
+	classIs := func(gs []an.Atom, o types.Object) bool {
+		return an.AnyAtom(gs, func(a an.Atom) bool {
+			return a.Op == token.EQL && strings.Contains(p.Desc(a.X), "GetScriptInfo") && p.Desc(a.Y) == constString(o)
+		})
+	}
+	n := 0
+	for _, st := range fieldStores(f, info, "maturity") {
+		n++
+		key := siteKey(f, "maturity-store", n)
+		v := st.(*ssa.Store).Val
+		gs := p.GuardsOf(st)
+		switch {
+		case isAddOne(v, nil):
+			if classIs(gs, stakingTy) {
+				c.OK(key, "frozen period + 1 under the staking class", posOf(c, st))
+			} else {
+				c.Fail(key, "maturity = height+1 is assigned outside the staking class", posOf(c, st))
+			}
+		default:
+			_, isK := constInt(v)
+			if strings.Contains(p.Desc(v), "MASSIP0002BindingLockedPeriod") {
+				isK = true
+			}
+			newStyle := an.AnyAtom(gs, func(a an.Atom) bool {
+				if a.Op != token.NEQ || !strings.HasPrefix(p.Desc(a.X), "len(") || !strings.Contains(p.Desc(a.X), "GetParsedBindingOpcode") {
+					return false
+				}
+				k, ok := constInt(a.Y)
+				return ok && k == 20
+			})
+			if isK && classIs(gs, bindingTy) && newStyle {
+				c.OK(key, "binding locked period under the binding class with a new-style target", posOf(c, st))
+			} else {
+				c.Fail(key, "a maturity of "+p.Desc(v)+" is assigned on a path that is not restricted to new-style binding outputs: a legacy binding output (20-byte target), which consensus lets be withdrawn as soon as it is confirmed, is recorded with the locked period and never becomes withdrawable", posOf(c, st), an.AtomTexts(gs)...)
+			}
+		}
+	}
+	if n < 2 {
+		c.Fail(sk(f)+":maturity-store", "anchor lost: ParsePkScript no longer assigns both maturities", p.Pos(f.Pos()))
+	}
+}
